@@ -231,6 +231,17 @@ Definition c11_run (g : option fl) (A0 : list (list fl)) (vs : list (list fl * b
   fvclose f1em6 f1em9 (map (@lam FOps) (duals s)) lam_impl &&
   fvclose f1em6 f1em9 (map (@bhat FOps) (duals s)) bhat_impl.
 
+(* the stopping rule: the model's loop (sweeps until the change of the dual variables is below tol or max_iter
+   sweeps were run) stops after the same number of sweeps as the implementation; tol is also tried 1e-6 (relative)
+   lower and higher, so that rounding in the convergence measure cannot decide *)
+Definition c11_stop (g : option fl) (A0 : list (list fl)) (vs : list (list fl * bool)) (lo hi tol : fl)
+    (max_iter n_iter_impl : nat) : bool :=
+  let cs := map (fun vb => @Build_cstr FOps (fst vb) (snd vb)) vs in
+  let n (tl : fl) := snd (@fit_loop FOps g cs tl max_iter A0 lo hi) in
+  Nat.eqb (n tol) n_iter_impl ||
+  Nat.eqb (n (PrimFloat.mul tol (PrimFloat.sub PrimFloat.one f1em6))) n_iter_impl ||
+  Nat.eqb (n (PrimFloat.mul tol (PrimFloat.add PrimFloat.one f1em6))) n_iter_impl.
+
 (* the certificate of the first sentence of C11, on the implementation's own numbers (exact rationals):
    M symmetric positive definite, lambda >= 0, M * (M0^-1 + sum_i y_i lambda_i v_i v_i^T) = I *)
 Definition c11_certificate (d : nat) (M M0 : list (list Q)) (vs : list (list Q * bool)) (lams : list Q) : bool :=
